@@ -204,7 +204,7 @@ class Grid(object):
             with open(os.path.join(cdir, "private", "convergence"), "wb") as f:
                 f.write(base32.b2a(convergence) + b"\n")
         config = read_config(cdir, "client.port")
-        sb = StorageFarmBroker(True, None, config, StorageClientConfig())
+        sb = StorageFarmBroker(True, None, config, StorageClientConfig.from_node_config(config))
         prev = R.current_node
         c = SimClient(config, main_tub=None, i2p_provider=None, tor_provider=None,
                       introducer_clients=[], storage_farm_broker=sb)
